@@ -2158,6 +2158,13 @@ class Transport(threading.Thread, ClosingContextManager):
             reply.add_int(OPEN_FAILED_ADMINISTRATIVELY_PROHIBITED)
             reply.add_string("")
             reply.add_string("en")
+        # Anything else of the connection protocol that has a handler
+        # (replies to requests we cannot have made yet: REQUEST_SUCCESS /
+        # FAILURE, CHANNEL_OPEN_CONFIRMATION / FAILURE) is answered like any
+        # other message we don't take at this point: UNIMPLEMENTED.
+        else:
+            reply.add_byte(cMSG_UNIMPLEMENTED)
+            reply.add_int(message.seqno)
         # NOTE: Post-open channel messages do not need checking; the above will
         # reject attempts to open channels, meaning that even if a malicious
         # user tries to send a MSG_CHANNEL_REQUEST, it will simply fall under
